@@ -149,6 +149,14 @@ def run(ctx, rep):
                 rep.ob('R19.5', 'params-file-is-the-config-used', bool(used),
                        'the parameter file is the serialisation of the ParamsConfig handed to the library' if used else
                        'the parameter file does not contain the parameters the computation uses')
+                # ... and its date range is the range the computation used (a file that drops or alters the dates reproduces another listing)
+                for c in used[:1]:
+                    sr = v[4][2] if len(v[4]) > 2 else None
+                    okr = bool(sr) and sr[0] == 'enum' and sr[2] == 'Some' and len(c[1]) > 2 and sr[4] and sr[4][0] == c[1][2]
+                    rep.ob('R19.5', 'params-file-has-the-dates-used', okr,
+                           'the saved date range is Some(the range handed to the library)' if okr else
+                           f'the saved date range is {show(sr, maxd=3)[:120]}, the computation used {show(c[1][2], maxd=3)[:80] if len(c[1]) > 2 else None}: '
+                           'reading the file back reproduces a different listing')
             else:
                 rep.ob('R19.4', 'json-is-library-result', False, f'the value serialised is {show(v, maxd=3)[:120]}, not the library result')
         if n in B.bodies and 'terminal' in n:
